@@ -35,5 +35,22 @@ Proof.
   apply render_total. pose proof renderer_ok as H. apply andb_prop in H. tauto.
 Qed.
 
+(* the text fallback takes apart every node go/printer does not know *)
+Lemma text_fallback_ok : print_handles_all gen_text_print_handled gen_text_print_recursive = true.
+Proof. vm_compute. reflexivity. Qed.
+
+Lemma closure_total_on name ac readable s c tf : In (name, ac) gen_access ->
+  closure_run_on ac gen_nodetext_guarded gen_text_print_handled gen_text_print_recursive readable s c tf = Ok tt.
+Proof.
+  intros Hin. apply filters_total_on; [|exact text_fallback_ok].
+  pose proof all_closures_safe as H. rewrite forallb_forall in H. exact (H (name, ac) Hin).
+Qed.
+
+Lemma render_total_on_gen readable s c :
+  render_capture_on gen_render_skips_typed_nil gen_nodetext_guarded gen_text_print_handled gen_text_print_recursive readable s c = Ok tt.
+Proof.
+  apply render_total_on; [|exact text_fallback_ok]. pose proof renderer_ok as H. apply andb_prop in H. tauto.
+Qed.
+
 Lemma location_guarded : gen_location_guarded = true.
 Proof. pose proof report_builder_ok as H. repeat (apply andb_prop in H; destruct H as [H ?]). exact H. Qed.
